@@ -20,8 +20,10 @@ fn pts(n: usize) -> Vec<Any> {
     (0..n).map(|q| Any::Point(Point::new(q as f64, (q % 7) as f64))).collect()
 }
 
-/// C04: the iterator with an index is the same iterator as the one without: `nth`, `skip`,
-/// `step_by`, `last`, `count` and `size_hint` after any number of `next` calls
+/// C04 / C14 / C15: the iterator with an index is the same iterator as the one without: `nth`,
+/// `skip`, `step_by`, `last`, `count` and `size_hint`, on a fresh reader, after some `next` calls,
+/// after `seek(k)`, after an earlier iteration — and what a FURTHER iteration on the same reader
+/// yields afterwards (the records not yet consumed, or all of them)
 pub fn oracle_iter_adaptors(n: usize) -> Verdict {
     wrap("iterator-adaptors", catch_unwind(AssertUnwindSafe(|| -> Result<(), String> {
         let (shp, shx) = write_files(true, &pts(n));
@@ -33,37 +35,78 @@ pub fn oracle_iter_adaptors(n: usize) -> Verdict {
                 Some(Err(e)) => Err(show_err(&e)),
             }
         };
+        // how the reader is brought into its state before the adaptor runs: (label, start position)
+        let mut states: Vec<(String, usize)> = (0..=n.min(5)).map(|p| (format!("next x{}", p), p)).collect();
+        for k in [0usize, 2, n.saturating_sub(1), n] {
+            states.push((format!("seek {}", k), k.min(n)));
+        }
+        states.push(("drained".to_string(), n));
+        states.push(("iterated 2".to_string(), 2.min(n)));
         for with in [true, false] {
-            for pre in 0..=n.min(5) {
+            for (label, start) in &states {
+                if label.starts_with("seek") && !with {
+                    continue;
+                }
                 for which in 0..9usize {
                     let mut rdr = if with { ShapeReader::with_shx(Cursor::new(shp.clone()), Cursor::new(shx.clone())) } else { ShapeReader::new(Cursor::new(shp.clone())) }.map_err(|e| show_err(&e))?;
-                    let mut it = rdr.iter_shapes_as::<Point>();
-                    for _ in 0..pre {
-                        let _ = it.next();
+                    if let Some(k) = label.strip_prefix("seek ") {
+                        rdr.seek(k.parse().unwrap()).map_err(|e| show_err(&e))?;
+                    } else if label == "drained" {
+                        let _ = rdr.iter_shapes_as::<Point>().count();
+                    } else if label == "iterated 2" {
+                        let _ = rdr.iter_shapes_as::<Point>().take(2).count();
                     }
-                    let rest: Vec<f64> = xs[pre.min(n)..].to_vec();
-                    let (name, got, want): (String, Vec<f64>, Vec<f64>) = match which {
-                        0 | 1 | 2 | 3 => {
-                            let k = [0usize, 1, 2, 7][which];
-                            (format!("nth({})", k), x_of(it.nth(k))?.into_iter().collect(), rest.get(k).cloned().into_iter().collect())
+                    let rest: Vec<f64> = xs[*start..].to_vec();
+                    let consumed: usize;
+                    let (name, got, want): (String, Vec<f64>, Vec<f64>) = {
+                        let mut it = rdr.iter_shapes_as::<Point>();
+                        if let Some(p) = label.strip_prefix("next x") {
+                            for _ in 0..p.parse::<usize>().unwrap() {
+                                let _ = it.next();
+                            }
                         }
-                        4 => ("skip(2).next()".into(), x_of(it.skip(2).next())?.into_iter().collect(), rest.get(2).cloned().into_iter().collect()),
-                        5 => {
-                            let v: Vec<f64> = it.step_by(2).take(4 * n + 8).map(|r| r.map(|p| p.x).unwrap_or(-1.0)).collect();
-                            ("step_by(2)".into(), v, rest.iter().cloned().step_by(2).collect())
-                        }
-                        6 => ("last()".into(), x_of(it.last())?.into_iter().collect(), rest.last().cloned().into_iter().collect()),
-                        7 => ("count()".into(), vec![it.take(4 * n + 8).count() as f64], vec![rest.len() as f64]),
-                        _ => {
-                            let _ = it.nth(1);
-                            let left = rest.len().saturating_sub(2);
-                            let h = it.size_hint();
-                            let ok = if with { h == (left, Some(left)) } else { h.0 <= left && h.1.map(|u| u >= left).unwrap_or(true) };
-                            ("nth(1) then size_hint()".into(), vec![if ok { 1.0 } else { h.0 as f64 + 1000.0 }], vec![1.0])
+                        match which {
+                            0 | 1 | 2 | 3 => {
+                                let k = [0usize, 1, 2, 7][which];
+                                consumed = (k + 1).min(rest.len());
+                                (format!("nth({})", k), x_of(it.nth(k))?.into_iter().collect(), rest.get(k).cloned().into_iter().collect())
+                            }
+                            4 => {
+                                consumed = 3.min(rest.len());
+                                ("skip(2).next()".into(), x_of(it.skip(2).next())?.into_iter().collect(), rest.get(2).cloned().into_iter().collect())
+                            }
+                            5 => {
+                                consumed = rest.len();
+                                let v: Vec<f64> = it.step_by(2).take(4 * n + 8).map(|r| r.map(|p| p.x).unwrap_or(-1.0)).collect();
+                                ("step_by(2)".into(), v, rest.iter().cloned().step_by(2).collect())
+                            }
+                            6 => {
+                                consumed = rest.len();
+                                ("last()".into(), x_of(it.last())?.into_iter().collect(), rest.last().cloned().into_iter().collect())
+                            }
+                            7 => {
+                                consumed = rest.len();
+                                ("count()".into(), vec![it.take(4 * n + 8).count() as f64], vec![rest.len() as f64])
+                            }
+                            _ => {
+                                consumed = 2.min(rest.len());
+                                let _ = it.nth(1);
+                                let left = rest.len().saturating_sub(2);
+                                let h = it.size_hint();
+                                let ok = if with { h == (left, Some(left)) } else { h.0 <= left && h.1.map(|u| u >= left).unwrap_or(true) };
+                                ("nth(1) then size_hint()".into(), vec![if ok { 1.0 } else { h.0 as f64 + 1000.0 }], vec![1.0])
+                            }
                         }
                     };
+                    let who = format!("{} points, reader {} index, state `{}`", n, if with { "with" } else { "without" }, label);
                     if got != want {
-                        return Err(format!("{} points, reader {} index, after {} next() calls: {} gives {:?}, the remaining items are {:?} so it should give {:?}", n, if with { "with" } else { "without" }, pre, name, got, rest, want));
+                        return Err(format!("{}: {} gives {:?}, the remaining items are {:?} so it should give {:?}", who, name, got, rest, want));
+                    }
+                    // a further iteration: the records not yet consumed, or all of them
+                    let after: Vec<f64> = rdr.iter_shapes_as::<Point>().take(4 * n + 8).map(|r| r.map(|p| p.x).unwrap_or(-1.0)).collect();
+                    let not_yet: Vec<f64> = rest[consumed..].to_vec();
+                    if after != not_yet && after != xs {
+                        return Err(format!("{}: after {} a further iteration yields {:?}; the records not yet consumed are {:?}", who, name, after, not_yet));
                     }
                 }
             }
